@@ -91,10 +91,15 @@ def q408Loop (body : Bytes) (szx : Nat) : Nat → Bytes → List QTx → R Q408O
 def q408 (maxPayloads : Nat) (body : Bytes) (szx : Nat) (payload : Bytes) : R Q408Out :=
   if payload = [] then .ok ⟨[], .failCbor⟩ else q408Loop body szx maxPayloads payload []
 
+/-- `fmt_opt ? coap_decode_var_bytes(…) : COAP_MEDIATYPE_TEXT_PLAIN` narrowed to `uint16_t` -/
+def fmtOf : Option Nat → Nat
+  | some f => f % 65536
+  | none => 0
+
 /-- what happens in front of the loop: Content-Format must be application/missing-blocks+cbor-seq (272; absent =
 text/plain = 0) else `fail_body`; a 4.08 that is not Non-confirmable is ignored (`return 1`). -/
 def q408Branch (maxPayloads : Nat) (body : Bytes) (szx : Nat) (fmt : Option Nat) (isNon : Bool) (payload : Bytes) : R Q408Out :=
-  if (match fmt with | some f => f % 65536 | none => 0) ≠ 272 then .ok ⟨[], .failBody⟩
+  if fmtOf fmt ≠ 272 then .ok ⟨[], .failBody⟩
   else if !isNon then .ok ⟨[], .done⟩
   else q408 maxPayloads body szx payload
 
@@ -132,13 +137,18 @@ def anyNextPayloadSet (maxPayloads : Nat) (rs : Ranges) (processing : Nat) : Boo
 
 /-! ## the missing blocks of a `rec_blocks` -/
 
+/-- `block + 1` for the running `int block` of the two loops below (−1 = `none`) -/
+def nxt : Option Nat → Nat
+  | none => 0
+  | some k => k + 1
+
 /-- The two loops `coap_request_missing_q_block2` (client) and the Q-Block1 arm of `coap_block_check_lg_srcv_timeouts`
 (server) share: walk the ranges with the running `block` (last one seen, −1 at the start = `none`) and list the numbers
 in the gaps in front of each range.  `block < (int)begin && begin != 0` then `block++; for (; block < begin; block++)`. -/
 def gapLoop : Ranges → Option Nat → List Nat → Option Nat × List Nat
   | [], block, acc => (block, acc)
   | (b, e) :: rest, block, acc =>
-    let first := match block with | none => 0 | some k => k + 1          -- block + 1;  block < begin ⇔ block + 1 ≤ begin
+    let first := nxt block          -- block + 1 (`nxt`: −1 = `none`);  block < begin ⇔ block + 1 ≤ begin
     if first ≤ b ∧ b ≠ 0 then
       -- the inner loop lists first .. begin - 1 and leaves `block == begin`; then `if (block < end) block = end`
       gapLoop rest (some (if b < e then e else b)) (acc ++ (List.range (b - first)).map (· + first))
@@ -149,7 +159,7 @@ def gapLoop : Ranges → Option Nat → List Nat → Option Nat × List Nat
 payload set; `none` = `(int)final_block < 0`) -/
 def missing408 (rs : Ranges) (finalBlock : Option Nat) : List Nat :=
   let (block, gaps) := gapLoop rs none []
-  let first := match block with | none => 0 | some k => k + 1
+  let first := nxt block
   match finalBlock with
   | none => gaps
   | some f => gaps ++ (List.range (f + 1 - first)).map (· + first)
